@@ -155,13 +155,15 @@ func RegisterProprietaryMACCommand(uplink bool, cid CID, payloadSize int) error 
 		return fmt.Errorf("lorawan: invalid payload size %d", payloadSize)
 	}
 
-	if payloadSize == 0 {
-		// no need to register the payload size
-		return nil
-	}
-
 	macPayloadMutex.Lock()
 	defer macPayloadMutex.Unlock()
+
+	if payloadSize == 0 {
+		// no need to register the payload size; an earlier registration of
+		// this CID with a payload must not stay in effect however
+		delete(macPayloadRegistry[uplink], cid)
+		return nil
+	}
 
 	macPayloadRegistry[uplink][cid] = macPayloadInfo{
 		size:    payloadSize,
